@@ -287,6 +287,8 @@ pub fn run(ctx: &Ctx) -> (Outcome, String, Option<bool>) {
                     .prop_map(|(ops, muts)| mutate(refvm::encode(&ops).unwrap(), &muts)),
                 2 => (crate::vmgen::choices(40), proptest::collection::vec((any::<u16>(), any::<u8>(), any::<u8>()), 0..3))
                     .prop_map(|(ch, muts)| mutate(refvm::encode(&crate::vmgen::build_program(&ch)).unwrap(), &muts)),
+                // near-misses of the standard signature covenants (a run of instructions replaced by other code of the same length)
+                1 => any::<u64>().prop_map(crate::vmgen::near_miss_std),
             ]
         },
         |b, st, _| {
@@ -299,7 +301,7 @@ pub fn run(ctx: &Ctx) -> (Outcome, String, Option<bool>) {
     );
     out.absorb(o);
 
-    let rule = "Enumerated: every byte string of length 0-3 (16 843 009 strings) and every opcode byte followed by 0-40 operand bytes of 5 patterns, pushb/pushic with every length byte x leading byte x short/exact/long payload. Programs of 65 534 to 131 072 one-byte instructions with valid, invalid and truncated tails. Generated: instruction lists with operands over their full range (ops->bytes->ops), random strings to 4 KiB and mutated valid encodings (bytes->ops->bytes). Oracle: round trips, agreement with RefVM's independent decoder/encoder on accept/reject and instruction list, hash/weight/covenant_weight_from_bytes/debug_execute equal between the from_bytes and from_ops views. Non-trivial = decodes to >=1 instruction carrying an operand, or is rejected after >=1 instruction decoded; distinct by bytes.".to_string();
+    let rule = "Enumerated: every byte string of length 0-3 (16 843 009 strings) and every opcode byte followed by 0-40 operand bytes of 5 patterns, pushb/pushic with every length byte x leading byte x short/exact/long payload. Programs of 65 534 to 131 072 one-byte instructions with valid, invalid and truncated tails. Generated: instruction lists with operands over their full range (ops->bytes->ops), random strings to 4 KiB, mutated valid encodings and near-misses of the standard signature covenants (bytes->ops->bytes). Oracle: round trips, agreement with RefVM's independent decoder/encoder on accept/reject and instruction list, hash/weight/covenant_weight_from_bytes/debug_execute equal between the from_bytes and from_ops views. Non-trivial = decodes to >=1 instruction carrying an operand, or is rejected after >=1 instruction decoded; distinct by bytes.".to_string();
     (out, rule, Some(true))
 }
 
